@@ -43,7 +43,8 @@ type c13Case struct {
 	LambdaKind string   `json:"lambdaKind"` // i|s|c|t  (native paradigm of the failing lambda)
 	Paradigm   string   `json:"paradigm"`   // invoke|stream|collect|transform
 	Mode       []string `json:"mode"`       // per graph level: pregel|dag
-	Siblings   int      `json:"siblings"`   // healthy parallel siblings next to the failing node
+	Siblings   int      `json:"siblings"`   // parallel siblings next to the failing node
+	CoFail     int      `json:"coFail,omitempty"` // the first CoFail siblings fail too, in the same step, with the same error value
 	AsCustom   bool     `json:"asCustom"`   // leaf is a custom error type matched with errors.As
 }
 
@@ -194,7 +195,12 @@ func c13Graph(c *c13Case, lvl int, cancel context.CancelFunc) (*compose.Graph[st
 		}
 		for i := 0; i < c.Siblings; i++ {
 			sk := fmt.Sprintf("sib%d", i)
-			g.AddLambdaNode(sk, c13Tag("s"))
+			if i < c.CoFail && c.Kind == "node" {
+				// several nodes of one step fail: whichever is reported, it must be unwrappable and named
+				g.AddLambdaNode(sk, c13FailingLambda(c, cancel))
+			} else {
+				g.AddLambdaNode(sk, c13Tag("s"))
+			}
 			g.AddEdge("pre", sk)
 			// siblings end in a sink that never reaches END (pregel) / join a no-data sink
 			if dag {
@@ -445,6 +451,9 @@ func c13Gen(r *vh.Rand) *c13Case {
 	c.LambdaKind = []string{"i", "s", "c", "t"}[r.Intn(4)]
 	c.Paradigm = []string{"invoke", "stream", "collect", "transform"}[r.Intn(4)]
 	c.Siblings = r.Intn(3)
+	if c.Kind == "node" && c.Siblings > 0 && r.Chance(40) {
+		c.CoFail = 1 + r.Intn(c.Siblings)
+	}
 	c.AsCustom = r.Chance(30)
 	names := []string{"n", "sub", "g", "node_1", "x"}
 	switch c.Kind {
@@ -505,7 +514,7 @@ func c13LevelKey(r *vh.Rand, names []string, i int) string {
 }
 
 func c13Key(c *c13Case) string {
-	return fmt.Sprintf("%s/%s/%s/%d/%s/%v/%d", c.Kind, c.LambdaKind, c.Paradigm, len(c.Levels), c.Err.K, c.Mode, c.Siblings)
+	return fmt.Sprintf("%s/%s/%s/%d/%s/%v/%d/%d", c.Kind, c.LambdaKind, c.Paradigm, len(c.Levels), c.Err.K, c.Mode, c.Siblings, c.CoFail)
 }
 
 func c13Sig(c *c13Case, what string) string {
@@ -542,7 +551,18 @@ func c13One(ctx *vh.Ctx, c *c13Case) error {
 		ctx.Res.Disagree(vh.Disagreement{Signature: c13Sig(c, "errors.Is"),
 			What: fmt.Sprintf("errors.Is/As(original) = %v on the implementation, %v in the model", impl.Is, model.Is), Case: c, Model: model, Impl: impl})
 	}
-	if !vh.CanonEq(impl.Path, model.Path) {
+	pathOK := vh.CanonEq(impl.Path, model.Path)
+	if !pathOK && c.CoFail > 0 && len(model.Path) > 0 && len(impl.Path) == len(model.Path) {
+		// any of the nodes that failed in that step may be the one reported (completion order decides)
+		for i := 0; i < c.CoFail && !pathOK; i++ {
+			alt := append(append([]string{}, model.Path[:len(model.Path)-1]...), fmt.Sprintf("sib%d", i))
+			pathOK = vh.CanonEq(impl.Path, alt)
+		}
+	}
+	if c.CoFail > 0 {
+		ctx.Res.Dist(fmt.Sprintf("co-failing=%d", c.CoFail))
+	}
+	if !pathOK {
 		ctx.Res.Disagree(vh.Disagreement{Signature: c13Sig(c, "nodePath"),
 			What: fmt.Sprintf("node path %v on the implementation, %v in the model", impl.Path, model.Path), Case: c, Model: model, Impl: impl})
 	}
